@@ -80,6 +80,20 @@ CHECKS["C10"] = ("proof",
     "remaining length is the written argument.",
     "5/C10", E2NOTE, E2TECH + " as state-machine decision tables")
 
+CHECKS["C11"] = ("proof",
+    "Decision tables of every lookup path over the argument cases (id of a live / removed slot, beyond the end; node inside / outside the arena) computed by E2, including "
+    "get_node_id through a slice-layout address model; count/iter/as_slice/is_empty/Display shown by origin rules to read exactly the slot vector / index1.",
+    "5/C11", E2NOTE + " Address model: element i at start + i*size_of, distinct allocations disjoint (language guarantees).", E2TECH + " (numeric/address domain) + origin rules")
+CHECKS["C13"] = ("proof",
+    "Purity scan of all MIR bodies (no ambient state, addresses only subtracted), derived Clone/PartialEq over a plain-data type closure, and field-by-field comparison (all Arena fields) of "
+    "new/default/with_capacity/clear results computed by E2; capacity is read only by capacity(); with_capacity/reserve are single Vec calls that forward their argument.",
+    "5/C13", E2NOTE + " Determinism additionally rests on C18 (no interior mutability) and on std's Vec being deterministic.", "purity/who-may-call rules + field-coverage comparison of abstractly evaluated constructors")
+CHECKS["C08"] = ("proof",
+    "No relocating operation is ever applied to node slots; Node.data is written only in free_node/Node::reuse (and built in Node::new) and every dynamic write is classified by E2; "
+    "no leak/forget/unsafe primitive exists, so ownership gives exactly-once drop, at free_node of that node (payload drops == nodes removed in every E2 record) or with the Vec; "
+    "every other entry leaves data/stamp untouched (frame).",
+    "5/C08", E2NOTE + " Exactly-once drop relies on Rust's ownership semantics given the absence of unsafe/leak primitives (C18).", "deny-list call rules + field-site inventory + frame/drop events of the abstract interpreter")
+
 PENDING = "check under construction in this build round (DESIGN.md section 10); not claimed until its engine part exists"
 
 NOT_APPLICABLE = {}
@@ -122,7 +136,7 @@ def main():
              "kind_free_text": "rustc_private driver exporting ADTs, impls and MIR with resolved callees as JSON, per profile x feature set"},
             {"name": "E1 rules", "path": "vlib/rules.py", "serves_properties": props,
              "kind_free_text": "call graph, CFG/dominators, field-site index, origin (value-flow) rules over the exported program"},
-            {"name": "E2 absint", "path": "vlib/absint", "serves_properties": ["C01", "C02", "C03", "C04", "C05", "C06", "C07", "C09", "C10", "C12"],
+            {"name": "E2 absint", "path": "vlib/absint", "serves_properties": ["C01", "C02", "C03", "C04", "C05", "C06", "C07", "C08", "C09", "C10", "C11", "C12", "C13"],
              "kind_free_text": "path-sensitive abstract interpreter over MIR with a shape domain (lazily materialised individuals, integrity constraints J)"},
             {"name": "E3 witness", "path": "witness", "serves_properties": ["C18", "C13"],
              "kind_free_text": "compile_fail,E0xxx doc-tests with compiling twins + generic witness functions (cargo +nightly test --doc)"},
